@@ -46,6 +46,9 @@ TBlkRead == /\ IsEvent("BlkRead") /\ BlkRead
             /\ (Ev.c = 1) = (m'.pc = "stop")
             /\ (Ev.c = 0 /\ Ev.a = 1) = (Len(m'.index) = Len(m.index) + 1)
             /\ (Len(m'.index) = Len(m.index) + 1 => m'.index[Len(m'.index)] = Ev.d)
+\* (the hook is emitted before lzma_index_append(): its failure shows only in what follows)
+TBlkReadFail == /\ IsEvent("BlkRead") /\ BlkReadFailAppend /\ Ev.a = 1 /\ Ev.c = 0
+                /\ m.space0 - m'.outSpace = Ev.b
 TGtPop == IsEvent("GtPop") /\ GtPop /\ (IF Ev.w = 0 THEN m'.thr = 0 ELSE m'.thr = Ev.w)
 TCreate == IsEvent("Create") /\ GtCreate /\ Ev.w = m.nInit + 1
 TGtStart == IsEvent("GtStart") /\ GtStart /\ Ev.w = m.thr /\ Ev.nsig >= 1
@@ -110,13 +113,13 @@ TWFinCoder == /\ IsEvent("WFinCoder") /\ WFinCoderTo(Ev.w, Ev.b)
               /\ (Ev.a = 2 => Ev.c = t[Ev.w].snapIn /\ Ev.d = 1)
               /\ Ev.nsig >= 1
 
-Logged == TReset \/ TCall \/ TRet \/ TProgress \/ TBlkRead \/ TGtPop \/ TCreate \/ TGtStart \/ TCopy \/ TPublish \/ TBlkErr
+Logged == TReset \/ TCall \/ TRet \/ TProgress \/ TBlkRead \/ TBlkReadFail \/ TGtPop \/ TCreate \/ TGtStart \/ TCopy \/ TPublish \/ TBlkErr
           \/ TUpdate \/ TAppReinit \/ TRStop \/ TRStopDone \/ TReinited \/ TWaitPark \/ TWaitGo \/ TWaitTimedOutEnd \/ TWaitWake \/ TWaitTimeout \/ TStop \/ TStopDone
           \/ TEndSignal \/ TEndJoin \/ TEndDone \/ TAppEnd \/ TFreed
           \/ TWTop \/ TWWake \/ TWEncInit \/ TWError \/ TWEncSyncBegin \/ TWEncSync \/ TWEncCode \/ TWEncWaitFin
           \/ TWFinThr \/ TWFinCoder
 
-Silent == /\ (Run \/ EncIn \/ Decide \/ (EndSignal /\ m.loopI >= m.nInit) \/ (\E w \in W : WAfter(w)) \/ RWait \/ RWaitWake \/ RQuiesceWake)
+Silent == /\ (Run \/ EncIn \/ Decide \/ EncInFail \/ GtCreateFail \/ TailFail \/ (EndSignal /\ m.loopI >= m.nInit) \/ (\E w \in W : WAfter(w)) \/ RWait \/ RWaitWake \/ RQuiesceWake)
           /\ UNCHANGED l
 
 TNext == Logged \/ Silent
